@@ -761,6 +761,126 @@ fn token_stress(level: ConcurrencyLevel, budget: std::time::Duration) -> Result<
     Ok(iters.load(SeqCst))
 }
 
+// ------------------------------------------------------------------------------------------------
+// thread-exit histories: a worker thread uses the token cache and EXITS (no clear_thread_cache); after the join the manager,
+// which outlives it, must count no token and must hand out a writer again
+
+struct ThreadExit {
+    level: ConcurrencyLevel,
+    lname: &'static str,
+}
+
+const TE_OPS: [&str; 4] = ["with_reader_token", "with_writer_token", "acquire_reader+return_to_cache", "acquire_writer+return_to_cache"];
+
+impl ThreadExit {
+    fn run(&self, ops: &[usize], workers: usize) -> Result<(), Fail> {
+        let tm = Arc::new(TokenManager::new(self.level));
+        for w in 0..workers {
+            let tm2 = tm.clone();
+            let ops2 = ops.to_vec();
+            let h = std::thread::spawn(move || {
+                for op in ops2 {
+                    match op {
+                        0 => {
+                            let _ = zipora::fsa::token::with_reader_token(&tm2, |_t| Ok(()));
+                        }
+                        1 => {
+                            let _ = zipora::fsa::token::with_writer_token(&tm2, |_t| Ok(()));
+                        }
+                        2 => {
+                            if let Ok(t) = tm2.acquire_reader_token() {
+                                tm2.return_reader_token(t);
+                            }
+                        }
+                        _ => {
+                            if let Ok(t) = tm2.acquire_writer_token() {
+                                tm2.return_writer_token(t);
+                            }
+                        }
+                    }
+                }
+                // the thread ends here with whatever it parked in its TOKEN_CACHE
+            });
+            if h.join().is_err() {
+                return Err(Fail::new("panic", format!("worker {w} panicked")).with_class("thread_exit"));
+            }
+            let mgr = tm.version_manager();
+            let (r, wr) = (mgr.active_readers(), mgr.active_writers());
+            check!(
+                r == 0 && wr == 0,
+                "counts_not_zero_at_quiescence",
+                "worker {w} ran {:?} and exited; no token is live, but the manager reports active_readers() = {r}, active_writers() = {wr} (tokens parked in the exited thread's cache were never released)",
+                ops.iter().map(|o| TE_OPS[*o]).collect::<Vec<_>>()
+            );
+        }
+        let mgr = tm.version_manager();
+        match mgr.acquire_writer_token() {
+            Ok(t) => drop(t),
+            Err(e) => {
+                return Err(Fail::new("writer_refused_at_quiescence", format!("every worker has exited and no token is live, but acquire_writer_token() is refused: {e}")).with_class("thread_exit"));
+            }
+        }
+        check!(mgr.min_version() <= mgr.current_version(), "min_version_gt_current", "min_version {} > current_version {}", mgr.min_version(), mgr.current_version());
+        Ok(())
+    }
+    fn histories() -> Vec<Vec<usize>> {
+        let mut out: Vec<Vec<usize>> = Vec::new();
+        let mut level: Vec<Vec<usize>> = vec![vec![]];
+        for _ in 0..3 {
+            let mut next = Vec::new();
+            for s in &level {
+                for a in 0..TE_OPS.len() {
+                    let mut t = s.clone();
+                    t.push(a);
+                    next.push(t);
+                }
+            }
+            out.extend(next.iter().cloned());
+            level = next;
+        }
+        out
+    }
+}
+
+impl zverif::Subject for ThreadExit {
+    fn name(&self) -> String {
+        format!("TokenManager[{}] thread-exit histories", self.lname)
+    }
+    fn explore(&self, ctx: &mut zverif::Ctx) {
+        let name = zverif::Subject::name(self);
+        ctx.stats(&name).bound = format!("every sequence of 1..3 operations from {:?} run by a worker thread that then EXITS without clearing its token cache, for 1 worker and for 2 workers one after the other; after each join: active_readers() = active_writers() = 0; at the end a writer token can be acquired", TE_OPS);
+        for ops in Self::histories() {
+            for workers in [1usize, 2] {
+                if !ctx.take_unit() {
+                    continue;
+                }
+                ctx.journal(&name, &|| zverif::json!({"ops": ops, "workers": workers}));
+                let st = ctx.stats(&name);
+                st.executions += 1;
+                st.transitions += (ops.len() * workers) as u64;
+                match zverif::util::catch(|| self.run(&ops, workers)) {
+                    Ok(Ok(())) => {
+                        *ctx.stats(&name).outcomes.entry("ok".into()).or_insert(0) += 1;
+                        ctx.add_state(&name, zverif::util::h64(&(&ops, workers)));
+                    }
+                    Ok(Err(f)) | Err(f) => {
+                        *ctx.stats(&name).outcomes.entry(format!("fail:{}:{}", f.clause, f.class)).or_insert(0) += 1;
+                        ctx.violation(&name, &f, zverif::json!({"ops": ops, "workers": workers}));
+                    }
+                }
+            }
+        }
+    }
+    fn replay(&self, _ctx: &mut zverif::Ctx, witness: &zverif::Value) -> zverif::Verdict {
+        let ops: Vec<usize> = witness.get("ops").and_then(|o| o.as_array()).map(|a| a.iter().map(|x| x.as_u64().unwrap_or(0) as usize).collect()).unwrap_or_default();
+        let workers = witness.get("workers").and_then(|w| w.as_u64()).unwrap_or(1) as usize;
+        match zverif::util::catch(|| self.run(&ops, workers)) {
+            Ok(Ok(())) => zverif::Verdict::Pass,
+            Ok(Err(f)) | Err(f) => zverif::Verdict::Fail(f),
+        }
+    }
+}
+
 fn main() {
     use Act::*;
     zverif::main_with("C16", |reg, _tier| {
@@ -855,6 +975,8 @@ fn main() {
                 budget_thorough_ms: 15000,
             }));
         }
+        reg.add(ThreadExit { level: owmr, lname: "OneWriteMultiRead" });
+        reg.add(ThreadExit { level: mwmr, lname: "MultiWriteMultiRead" });
         reg.add(Seq(SeqTokens { level: owmr, dq: 4, dt: 5 }));
         reg.add(Seq(SeqTokens { level: mwmr, dq: 3, dt: 4 }));
         reg.add(Seq(SeqTokens { level: ConcurrencyLevel::SingleThreadShared, dq: 4, dt: 5 }));
